@@ -42,3 +42,8 @@ claim('C05', 'scripted-comparison evaluation of System.wrap over symbolic scaled
       'Decides structural necessary conditions: for all 8 periodicity settings wrap moves atoms by floor(s) whole vectors along periodic directions only, writes positions through the old cell, enlarges both non-periodic bounds '
       'independently with vectors×extent and origin+mins·V; normalize copies its input, flips (a,b,-c,origin+c) under (a×b)·c<0 holding absolute positions, rebuilds from the six lattice parameters holding scaled positions, wraps, '
       'and asserts orthonormality before returning; box_set(scale=True) ordering; reciprocal-cache invalidation. Numerical invariance of distances is not decided.', 'DESIGN.md §6 C05')
+
+claim('C06', 'guard dominance and who-may-write rules on the per-atom table; alias/freshness and mutation (effect) analysis of accessors; model evaluation of Atoms.extend on symbolic property tables; sibling agreement of symbols/masses accessors',
+      'Decides structural necessary conditions: all insertions pass the natoms-rows/atype>=1 guard and nothing else writes the table; copying accessors return fresh storage on every path; extend/atoms_extend/getitem/deepcopy/df/atoms_ix/supersize/rotate '
+      'do not write to their operands; Atoms.extend, evaluated on two model Atoms with differing property sets, yields receiver rows then appended rows with zeros for missing values; appended scaled positions land in rows [natoms_self:]; '
+      'symbols/masses padding bounds agree. Equality with a record-per-atom model over arbitrary histories is not decided.', 'DESIGN.md §6 C06')
